@@ -188,6 +188,7 @@ impl EventLoop {
 
         let inflight_full = self.state.inflight >= self.state.max_outgoing_inflight;
         let collision = self.state.collision.is_some();
+        let network_timeout = Duration::from_secs(self.options.connection_timeout());
 
         // Read buffered events from previous polls before calling a new poll
         if let Some(event) = self.state.events.pop_front() {
@@ -234,7 +235,8 @@ impl EventLoop {
                     if let Some(outgoing) = self.state.handle_outgoing_packet(request)? {
                         network.write(outgoing).await?;
                     }
-                    network.flush().await?;
+                    // a peer that stops reading must not block the event loop for ever
+                    time::timeout(network_timeout, network.flush()).await??;
                     Ok(self.state.events.pop_front().unwrap())
                 }
                 Err(_) => Err(ConnectionError::RequestsDone),
@@ -243,7 +245,8 @@ impl EventLoop {
             o = network.readb(&mut self.state) => {
                 o?;
                 // flush all the acks and return first incoming packet
-                network.flush().await?;
+                // a peer that stops reading must not block the event loop for ever
+                time::timeout(network_timeout, network.flush()).await??;
                 Ok(self.state.events.pop_front().unwrap())
             },
             // We generate pings irrespective of network activity. This keeps the ping logic
@@ -255,7 +258,8 @@ impl EventLoop {
                 if let Some(outgoing) = self.state.handle_outgoing_packet(Request::PingReq)? {
                     network.write(outgoing).await?;
                 }
-                network.flush().await?;
+                // a peer that stops reading must not block the event loop for ever
+                time::timeout(network_timeout, network.flush()).await??;
                 Ok(self.state.events.pop_front().unwrap())
             }
         }
